@@ -159,6 +159,7 @@ def check_write_pdb_eval(chk) -> bool:
     ter_bad: List[str] = []
     trip_bad: Dict[str, Any] = {}
     width_bad: List[str] = []
+    model_bad: List[str] = []
     n_tables = n_ter = n_atoms = 0
     try:
         for fmt in ("PDB", "mmCIF"):
@@ -203,8 +204,8 @@ def check_write_pdb_eval(chk) -> bool:
                             ter_bad.append(f"{fmt} table, {tag}: `{line.rstrip()}` ({len(line)} columns) instead of `{exp.rstrip()}` (80 columns)")
                     elif w == "MODEL":
                         lo, hi = sp["model_serial"]
-                        if line[lo:hi].strip() != str(row["model"]) or line[6:lo].strip() or line[hi:].strip():
-                            order_bad.append((f"{fmt} table, {tag}", f"MODEL line `{line.rstrip()}` does not carry the model number {row['model']} in columns {lo + 1}-{hi}"))
+                        if line[lo:hi] != str(row["model"]).rjust(hi - lo) or line[:6].strip() != "MODEL" or line[6:lo].strip() or line[hi:].strip():
+                            model_bad.append(f"{fmt} table, {tag}: MODEL line `{line.rstrip()}` does not carry the model number {row['model']} right-justified in columns {lo + 1}-{hi}")
                     elif w == "ATOM":
                         n_atoms += 1
                         rec, _ = v2_decode(repo, line)
@@ -222,7 +223,7 @@ def check_write_pdb_eval(chk) -> bool:
         return False
     loops = [l for l in wp.node.body if isinstance(l, ast.For)]
     site = wp.site(loops[0]) if loops else wp.where
-    with evidence(chk, "record-order", "ter-line", "ter-provenance", "pdb-round-trip"):
+    with evidence(chk, "record-order", "ter-line", "ter-provenance", "pdb-round-trip", "model-line"):
         failed_tables = set()
         seen = set()
         for where, what in order_bad:
@@ -241,6 +242,9 @@ def check_write_pdb_eval(chk) -> bool:
             for what in ("serial = last atom's serial + 1 in columns 7-11", "residue name of the last atom in columns 18-20", "chain in column 22", "residue number in columns 23-26, insertion code in column 27", "padded to 80 columns"):
                 chk.ok("ter-line", site, f"evaluated on {n_ter} TER records: {what}")
             chk.ok("ter-provenance", site, "evaluated: TER names the last residue of the chain it closes, serial = last serial + 1")
+        if model_bad:
+            chk.violation("model-line", site, model_bad[0], K(wp, "model-line"), found=model_bad[:3])
+        elif n_tables:
             chk.ok("model-line", site, "evaluated: MODEL serial is written right-justified to columns 11-14")
         if width_bad:
             chk.violation("ter-line", site, width_bad[0], K(wp, "line-width"))
